@@ -278,9 +278,32 @@ def gen_dc(rng, big):
         for _ in range(rng.randint(1, 4)): P.insert(rng.randrange(len(P) + 1), list(rng.choice(P)))
     return case_lines("R", d, 0, [0] * d, P)
 
+def gen_k3(rng, big):
+    """contribution queries aimed at the case splits of the 3-D sweep (HypervolumeContribution3D): mutually non-dominated
+    sets with few distinct values per objective (equal f1 / equal f2 / equal f3 between different points: multiset order,
+    'right neighbour with the same second objective', equal sweep heights), duplicates (also triples), points on the
+    reference boundary of each objective, n = 1, 2, and the 4/5-objective MD algorithm on the same kind of sets"""
+    d = rng.choice([3, 3, 3, 3, 4, 5])
+    R = rng.choice([1, 2, 2, 3, 3, 4, 6] if d == 3 else [1, 2, 3])
+    n = rng.choice([1, 2, 3, 4, 5, 6, 8, 10, 12, 16] if d == 3 else [1, 2, 3, 5, 8, 12])
+    P0 = [[rng.randint(0, R) for _ in range(d)] for _ in range(4 * n)]
+    if rng.random() < 0.3:            # anti-chain on a plane: many equal coordinate pairs
+        P0 = [p for p in P0 if sum(p) == (d * R) // 2] or P0
+    P = []
+    for p in P0:
+        if not any(dom(q, p) for q in P0) and p not in P: P.append(p)
+    P = P[:n] or [P0[0]]
+    for _ in range(rng.choice([0, 0, 1, 2, 3])):
+        P.insert(rng.randrange(len(P) + 1), list(rng.choice(P)))
+    rng.shuffle(P)
+    mx = [max(p[j] for p in P) for j in range(d)]
+    ref = [m + rng.choice([0, 0, 1, 1, 2]) for m in mx]      # boundary points in every objective are frequent
+    return case_lines("K", d, rng.randint(1, len(P)), ref, P)
+
 def gen_case(rng, big, kind=None):
-    kind = kind or rng.choice(["R", "R", "H", "H", "H", "K", "K", "S", "S", "D"])
+    kind = kind or rng.choice(["R", "R", "H", "H", "H", "K", "K", "S", "S", "D", "K3"])
     if kind == "D": return gen_dc(rng, big)
+    if kind == "K3": return gen_k3(rng, big)
     d, R = pick_dR(rng, big)
     if kind == "R":
         n = rng.choice([1, 2, 3, 5, 8, 13, 20, 30, 40] + ([60, 80] if big else []))
